@@ -832,6 +832,177 @@ def run(chk):
         if not ev:
             raise mir.AnchorMissing("a `% 4` / `/ 4` step on a century remainder in Timestamp::from_parts")
         return True, "", ev
+    def century_remainder_bounded():
+        """Forward interval analysis (abstract interpretation over one integer variable, no paths, no solver) of the years-within-cycle remainder in the
+        general branch of from_parts: from `(year - 100) % 400` through the `< 0` correction and the century selection (`>= 300 / 200 / 100`, each
+        followed by the matching subtraction) the variable must arrive at the every-fourth-year step with a value in [0, 99] - the years within one
+        century.  An off-by-one in a century boundary (`> 300`) lets 100 through: the year x300 is then counted in the wrong century and treated as a
+        leap year."""
+        bs = [x for k, x in P.bodies.items() if k.endswith("timestamp::Timestamp::from_parts")]
+        if not bs:
+            raise mir.AnchorMissing("Timestamp::from_parts")
+        b = bs[0]
+        # the variable: the local that receives `.. % 400`
+        var = None
+        start = None
+        for bb, j, st in b.statements(normal_only=True):
+            rv = st.get("rv") if st["k"] == "assign" else None
+            if rv and rv["k"] == "binop" and rv["op"] == "Rem" and mir.o_const_value(b.origin(rv["b"])) == 400 and "p" not in st["place"]:
+                var, start = st["place"]["l"], (bb, j)
+        if var is None:
+            raise mir.AnchorMissing("the `% 400` step of from_parts")
+        INF = 10 ** 30
+
+        def const_of(op):
+            v = mir.o_const_value(b.origin(op))
+            return v if isinstance(v, int) and not isinstance(v, bool) else None
+
+        def ev(op, x, depth=0):
+            """interval of an operand given interval x of `var` (None = unknown)"""
+            if depth > 6:
+                return None
+            k = op.get("k") if "k" in op and isinstance(op.get("k"), dict) else None
+            c = const_of(op) if ("k" in op and not ("c" in op or "m" in op)) else None
+            if c is not None:
+                return (c, c)
+            pl = op.get("c") or op.get("m")
+            if not pl:
+                return None
+            if pl["l"] == var and "p" not in pl:
+                return x
+            ds = [d for d in b.defs().get(pl["l"], ()) if d[2] == "assign"]
+            if len(ds) != 1:
+                return None
+            rv = ds[0][3]
+            if "p" in pl and pl["p"] == [{"f": 0}] and rv["k"] == "binop" and rv["op"] in ("AddWithOverflow", "SubWithOverflow"):
+                a_, c_ = ev(rv["a"], x, depth + 1), ev(rv["b"], x, depth + 1)
+                if a_ is None or c_ is None:
+                    return None
+                return (a_[0] + c_[0], a_[1] + c_[1]) if rv["op"].startswith("Add") else (a_[0] - c_[1], a_[1] - c_[0])
+            if "p" in pl:
+                return None
+            if rv["k"] == "use":
+                return ev(rv["op"], x, depth + 1)
+            return None
+
+        state = {}           # block -> interval at block entry
+        def join(a_, c_):
+            return c_ if a_ is None else (a_ if c_ is None else (min(a_[0], c_[0]), max(a_[1], c_[1])))
+        work = [(start[0], "start")]
+        entry = {start[0]: None}
+        seen_sites = []
+        order = [start[0]]
+        visited = set()
+        out_edges = {}
+        # topological-ish worklist (the region has no loop); cap the iterations
+        pending = {start[0]: ("init",)}
+        iters = 0
+        todo = [start[0]]
+        inst = {start[0]: "INIT"}
+        while todo and iters < 2000:
+            iters += 1
+            bb = todo.pop(0)
+            x = state.get(bb)
+            first = 0
+            if bb == start[0] and inst.get(bb) == "INIT":
+                x = None
+            stmts = b.blocks[bb]["stmts"]
+            for j, st in enumerate(stmts):
+                if st["k"] != "assign":
+                    continue
+                rv = st["rv"]
+                # sites: x / 4, x % 4 reading var
+                if rv["k"] == "binop" and rv["op"] in ("Div", "Rem") and const_of(rv["b"]) == 4:
+                    ax = ev(rv["a"], x)
+                    if ax is not None or (rv["a"].get("c") or rv["a"].get("m") or {}).get("l") == var:
+                        seen_sites.append((bb, st.get("line"), ax, rv["op"]))
+                if "p" in st["place"] or st["place"]["l"] != var:
+                    continue
+                if rv["k"] == "binop" and rv["op"] == "Rem":
+                    m = const_of(rv["b"])
+                    a_ = ev(rv["a"], x)
+                    if m and m > 0:
+                        if a_ is not None and a_[0] >= 0:
+                            x = (0, min(a_[1], m - 1))
+                        else:
+                            x = (-(m - 1), m - 1)
+                    else:
+                        x = None
+                elif rv["k"] == "use":
+                    x = ev(rv["op"], x)
+                else:
+                    x = None
+            t = b.blocks[bb]["term"]
+            succs = []
+            if t["k"] == "switch":
+                dl = b._op_local(t["discr"])
+                ds = [d for d in b.defs().get(dl, ()) if d[2] == "assign"]
+                cmp_ = ds[0][3] if len(ds) == 1 and ds[0][3]["k"] == "binop" else None
+                for v, n in [(str(v), n) for v, n in t["targets"]] + [("otherwise", t["otherwise"])]:
+                    xe = x
+                    if cmp_ and x is not None and cmp_["op"] in ("Lt", "Le", "Gt", "Ge", "Eq", "Ne"):
+                        la, lb = ev(cmp_["a"], ("VAR",)), ev(cmp_["b"], ("VAR",))
+                        kk = const_of(cmp_["b"]) if la == ("VAR",) else (const_of(cmp_["a"]) if lb == ("VAR",) else None)
+                        if kk is not None:
+                            op = cmp_["op"] if la == ("VAR",) else {"Lt": "Gt", "Le": "Ge", "Gt": "Lt", "Ge": "Le", "Eq": "Eq", "Ne": "Ne"}[cmp_["op"]]
+                            truth = (v != "0")
+                            if not truth:
+                                op = {"Lt": "Ge", "Ge": "Lt", "Gt": "Le", "Le": "Gt", "Eq": "Ne", "Ne": "Eq"}[op]
+                            lo, hi = x
+                            if op == "Lt":
+                                hi = min(hi, kk - 1)
+                            elif op == "Le":
+                                hi = min(hi, kk)
+                            elif op == "Gt":
+                                lo = max(lo, kk + 1)
+                            elif op == "Ge":
+                                lo = max(lo, kk)
+                            elif op == "Eq":
+                                lo, hi = max(lo, kk), min(hi, kk)
+                            elif op == "Ne":
+                                if lo == kk:
+                                    lo += 1
+                                if hi == kk:
+                                    hi -= 1
+                            if lo > hi:
+                                continue      # infeasible edge
+                            xe = (lo, hi)
+                    succs.append((n, xe))
+            else:
+                for n in b.succ(bb):
+                    succs.append((n, x))
+            for n, xe in succs:
+                if b.blocks[n].get("cleanup"):
+                    continue
+                old_ = state.get(n, "unset")
+                new_ = xe if old_ == "unset" else (None if (old_ is None or xe is None) else join(old_, xe))
+                if old_ == "unset" or new_ != old_:
+                    state[n] = new_
+                    if n not in todo:
+                        todo.append(n)
+            inst[bb] = "DONE"
+        sites = [(bb, ln, ax, op) for bb, ln, ax, op in seen_sites]
+        if not sites:
+            raise mir.AnchorMissing("an every-fourth-year step reading the century remainder")
+        # keep the last visit of each site (the joined state)
+        last = {}
+        for bb, ln, ax, op in sites:
+            last[(bb, ln, op)] = ax
+        ev_ = []
+        for (bb, ln, op), ax in sorted(last.items(), key=lambda z: str(z)):
+            if ax is None:
+                return False, "the interval of the within-century remainder at %s:%s could not be computed (code shape not modelled)" % (b.file, ln), [], "%s:%s" % (b.file, ln)
+            if op == "Div" or True:
+                if ax[0] < 0 or ax[1] > 99:
+                    if op == "Rem" and ax[0] >= 0 and ax[1] <= 99:
+                        continue
+                    return False, ("Timestamp::from_parts reaches its every-fourth-year step (%s:%s) with a years-within-century remainder in [%d, %d], not within "
+                                   "[0, 99]: a century boundary is off by one, so a year like 2300 is counted in the wrong century and comes out as a leap year"
+                                   % (b.file, ln, ax[0], ax[1])), [], "%s:%s" % (b.file, ln)
+            ev_.append("%s:%s in [%d, %d]" % (b.file, ln, ax[0], ax[1]))
+        return True, "", ev_
+    chk.ob("C15.R5:century-remainder-bounded", "interval analysis: the years-within-century remainder reaches the every-fourth-year step within [0, 99]", century_remainder_bounded)
+
     chk.ob("C15.R5:century-years-not-leap", "the every-fourth-year rule is only applied to a non-zero within-century remainder", century_years_not_leap)
 
     chk.ob("C15.R5:four-year-shortcut", "a leap-year computation without century terms is only reachable for years below 2100",
